@@ -70,6 +70,34 @@ Theorem C18_cleanup : forall remote pr env sc q,
 Proof. exact exchange_cleanup. Qed.
 Print Assumptions C18_cleanup.
 
+(* What exists after the exchange because of it: nothing -- unless the Mkdir
+   succeeded AND another party (necessarily running with the client's uid, or root:
+   the directory is 0700) put an entry into the directory before the client's
+   Remove ran; then exactly that one directory /tmp/<validated leaf> stays. *)
+Theorem C18_left_behind : forall remote pr env sc,
+  let x := client_exchange remote pr env sc in
+  left_behind env (x_eff x) = [] \/
+  exists p leaf, sc_path sc = IoOk p /\ validate p remote pr = VOk leaf /\
+    mkdir_ok env leaf = true /\ at_cleanup env (under_base leaf) = CsNonEmptyDir /\
+    left_behind env (x_eff x) = [under_base leaf].
+Proof. exact exchange_left_behind. Qed.
+Print Assumptions C18_left_behind.
+(* "whatever the client created is removed again" under the hypothesis that nobody
+   fills the directory (already removed by the server, or replaced by a file or
+   symlink of that name, are fine) ... *)
+Theorem C18_removed_again_partial : forall remote pr env sc,
+  (forall q, at_cleanup env q <> CsNonEmptyDir) ->
+  left_behind env (x_eff (client_exchange remote pr env sc)) = [].
+Proof. exact exchange_nothing_left. Qed.
+Print Assumptions C18_removed_again_partial.
+(* ... and the hypothesis is necessary: the client only rmdir's (known finding
+   residue-directory-filled-before-cleanup; the harness replays it on the real code) *)
+Theorem C18_removed_again_refuted :
+  exists remote pr env sc,
+    left_behind env (x_eff (client_exchange remote pr env sc)) <> [].
+Proof. exact exchange_nothing_left_refuted. Qed.
+Print Assumptions C18_removed_again_refuted.
+
 (* The server accepts only a real directory that is not a symlink, has mode 0700
    and link count 1 or 2, after a client result of 0; the identity is the owner. *)
 Theorem C18_server_accepts : forall code st lookup who,
@@ -107,7 +135,7 @@ Proof. vm_compute. reflexivity. Qed.
 (* an exchange in which the directory is created, the send of the result fails,
    and the directory is removed all the same *)
 Example C18_ex_cleanup_on_send_failure :
-  x_eff (client_exchange false PNone {| open_root_ok := true; mkdir_ok := fun _ => true |}
+  x_eff (client_exchange false PNone {| open_root_ok := true; mkdir_ok := fun _ => true; at_cleanup := fun _ => CsEmptyDir |}
            {| sc_path := IoOk (bs "/tmp/FS_12345"); sc_eom1 := EomOk; sc_put := true; sc_fin := false;
               sc_res := IoFail; sc_eom2 := EomErr |})
   = [EMkdir (bs "/tmp/FS_12345") true; ERmdir (bs "/tmp/FS_12345")].
